@@ -94,6 +94,18 @@ pub fn note_alloc(kind: u32, ptr: usize, size: usize) {
     }
     let d = DEPTH.try_with(|d| d.get()).unwrap_or(0);
     let ie = IN_ENGINE.try_with(|d| d.get()).unwrap_or(true);
+    if kind == 1 && !ie && have_exec() {
+        // The real release of a tracked snapshot, wherever the code does it: if no snapshot_free
+        // event announced it, the release itself is the event.
+        let e = exec();
+        if e.live_snapshots.contains_key(&(ptr as u64)) {
+            let _g = EngineGuard::enter();
+            e.live_snapshots.remove(&(ptr as u64));
+            e.synth_freed.push(ptr as u64);
+            e.push_ev("snapshot_free", ptr as u64, 2);
+            exec().access(ptr as u64, true, "snapshot_free");
+        }
+    }
     if d > 0 && !ie {
         ALLOC_IN_HANDLER.fetch_add(1, Ordering::Relaxed);
         ALLOC_IN_HANDLER_KIND.store(kind, Ordering::Relaxed);
@@ -356,6 +368,10 @@ pub struct Exec {
     pub accessors: HashMap<(u32, u32), u16>,
     pub new_shared: Vec<(u32, u32)>,
     pub skipped_ops: u64,
+    /// snapshots announced by snapshot_alloc and not yet released
+    pub live_snapshots: HashMap<u64, ()>,
+    /// snapshots whose release was observed through the allocator before any event announced it
+    pub synth_freed: Vec<u64>,
     /// report locks / yields / blocking reads inside handler frames (C03)
     pub handler_discipline: bool,
     pub user: Option<Box<dyn Any>>,
@@ -497,6 +513,8 @@ impl Exec {
             accessors: HashMap::new(),
             new_shared: Vec::new(),
             skipped_ops: 0,
+            live_snapshots: HashMap::new(),
+            synth_freed: Vec::new(),
             handler_discipline: true,
             user: None,
         }
@@ -1330,6 +1348,20 @@ fn hook_event(tag: &'static str, a: u64, b: u64) {
     }
     let _g = EngineGuard::enter();
     let e = exec();
+    match tag {
+        "snapshot_alloc" => {
+            e.live_snapshots.insert(a, ());
+        }
+        "snapshot_free" => {
+            if let Some(i) = e.synth_freed.iter().position(|&x| x == a) {
+                // already reported when the allocator saw the release
+                e.synth_freed.swap_remove(i);
+                return;
+            }
+            e.live_snapshots.remove(&a);
+        }
+        _ => {}
+    }
     e.push_ev(tag, a, b);
     match tag {
         "cell_write" | "cell_take" | "cell_access" => e.access(a, true, tag),
